@@ -4,11 +4,13 @@ package c14
 import (
 	"context"
 	"fmt"
+	"github.com/marekgalovic/anndb/storage"
 	"os"
 	"runtime"
 	"sort"
 	"strings"
 	"sync"
+	"sync/atomic"
 	"testing"
 	"time"
 
@@ -325,12 +327,36 @@ func replicaSetChanges(rec *mon.Recorder, c int) {
 	if !settle("before-any-change", func(l string) bool { return has3(l, false) }) {
 		return
 	}
-	// node 3 joins: the under-replicated partitions get it
+	// node 3 joins: the under-replicated partitions get it - while clients create and delete other datasets through
+	// both members (catalogue proposals of clients overlapping the allocators' own on the same node)
+	var churn sync.WaitGroup
+	var churnStop int32
+	for _, n := range cl.Nodes[:2] {
+		churn.Add(1)
+		go func(n *sim.Node) {
+			defer churn.Done()
+			for k := 0; k < 40 && atomic.LoadInt32(&churnStop) == 0; k++ {
+				var d *storage.Dataset
+				cl.Guard(4*time.Second, func() {
+					d, _ = n.DM().Create(context.Background(), &pb.Dataset{Dimension: 2, PartitionCount: 1, ReplicationFactor: 1})
+				})
+				if d != nil {
+					id := uuid.FromBytesOrNil(d.Meta().GetId())
+					cl.Guard(4*time.Second, func() { n.DM().Delete(context.Background(), id) })
+				}
+			}
+		}(n)
+	}
 	if err := cl.StartNode(2); err != nil {
+		atomic.StoreInt32(&churnStop, 1)
+		churn.Wait()
 		rec.Inconclusive(desc + ": join of node 3: " + err.Error())
 		return
 	}
-	steps = append(steps, "node 3 joins")
+	time.Sleep(150 * time.Millisecond)
+	atomic.StoreInt32(&churnStop, 1)
+	churn.Wait()
+	steps = append(steps, "node 3 joins (while clients create and delete datasets through both members)")
 	if !settle("after-a-node-was-added-to-under-replicated-partitions", func(l string) bool { return has3(l, true) }) {
 		return
 	}
@@ -756,6 +782,18 @@ func scenario(rec *mon.Recorder, c int) {
 		default: // a node stays down while the catalogue changes, the others compact, it comes back
 			if nodes < 3 || down >= 0 {
 				continue
+			}
+			if forceLag && len(model) < 2 {
+				// the node that goes away knows datasets (so that it has something to forget, or to keep wrongly)
+				for k := 0; k < 2; k++ {
+					if e0, ok := create(live[0], uint32(1+k), 1); ok {
+						model[e0.id] = e0
+						steps = append(steps, "create "+e0.id.String())
+					}
+				}
+				if !compare("before-a-member-goes-down") {
+					return
+				}
 			}
 			down = 1 + rng.Intn(nodes-1)
 			cl.Crash(down)
